@@ -515,3 +515,26 @@ contract(
     ],
     concretize=concretize_vault, gen=gen_vault,
 )
+
+
+# ------------------------------------------------------------------ coordinate translation at table level (C19)
+from pyvc.spec import TupleOf  # noqa: E402
+
+
+def _wrapped(v, length, r):
+    """`negative numbers count from the current end`: r is v for v >= 0, else v wrapped into [0, length)"""
+    return S.And(S.Implies(v >= 0, r == v),
+                 S.Implies(S.And(v < 0, length > 0), lambda: S.And(0 <= r, r < length, (r - v) % length == 0)),
+                 S.Implies(S.And(v < 0, length == 0), r == 0))
+
+
+contract(
+    "odfdo.table:Table._translate_cell_coordinates",
+    sig=[dict(self=_table(), coord=TupleOf(Int, Int)), dict(self=_table(), coord=TupleOf(Int, Int, Int, Int))],
+    requires=lambda a: S.And(inv_vault(a.self, "rows"), inv_vault(a.self, "cols")),
+    ensures=[Clause("negative-from-end", {"C19", "C01", "C08"}, lambda a, r, p: S.And(
+        _wrapped(a.coord[0], vlen(a.self, "cols"), r[0]), _wrapped(a.coord[1], vlen(a.self, "rows"), r[1])))],
+    inline={"odfdo.utils.coordinates:convert_coordinates"},
+    concretize=concretize_vault, gen=gen_vault, observer=True,
+    note="tuple forms (x, y) and (x, y, z, t): the first cell is addressed; negatives wrap against width / height",
+)
